@@ -362,3 +362,95 @@ package network
 //@   requires p != nil && q != nil && p != q
 //@   modifies p.footer, q.footer, q.hashOfPacket, q.extendInfo
 //@   ensures [roundtrip] err == nil && q.hashOfPacket == p.hashOfPacket && q.extendInfo == p.extendInfo
+
+// ---------------------------------------------------------------------------
+// C33: flooded packets reach the application at most once (hash pool) and only from legitimate senders
+// ---------------------------------------------------------------------------
+
+//@ property C33
+// backward distance of bucket i from the current bucket (the search order of _contains)
+//@ spec back(p, i) = (i <= p.cur ? p.cur - i : p.cur + p.numOfBucket - i)
+// the pool: numOfBucket map slots, the current one allocated, and the allocated ones form a run going
+// backwards from the current one (a slot is only ever created at the position after the current one)
+//@ spec poolInv(p) = p != nil && p.numOfBucket == len(p.buckets) && p.numOfBucket == len(p.len) && p.numOfBucket > 0 && 0 <= p.cur && p.cur < p.numOfBucket && p.buckets[p.cur] != nil && ref(p.buckets) != ref(p.len) && p.lenOfBucket >= 1 && p.lenOfBucket < 0x7fffffff && p.len[p.cur] < p.lenOfBucket && (forall c int :: {p.len[c]} 0 <= c && c < p.numOfBucket ==> 0 <= p.len[c] && p.len[c] <= p.lenOfBucket) && (forall a int, b int :: {p.buckets[a], p.buckets[b]} 0 <= a && a < p.numOfBucket && 0 <= b && b < p.numOfBucket && back(p, a) < back(p, b) && p.buckets[b] != nil ==> p.buckets[a] != nil)
+//@ spec inPool(p, h) = exists i int :: 0 <= i && i < p.numOfBucket && p.buckets[i] != nil && hasmap(p.buckets[i])[h]
+
+// _contains answers exactly "some allocated bucket holds this hash" (an empty bucket does not end the search)
+//@ func (p *PacketPool) _contains(pkt) (r)
+//@   arith int
+//@   pure
+//@   requires poolInv(p) && pkt != nil
+//@   ensures [found] r ==> inPool(p, pkt.hashOfPacket)
+//@   ensures [notfound] !r ==> (forall i int :: {p.buckets[i]} 0 <= i && i < p.numOfBucket && p.buckets[i] != nil ==> !hasmap(p.buckets[i])[pkt.hashOfPacket])
+//@   loop 0: invariant 0 <= i && i <= p.numOfBucket && 0 <= cur && cur < p.numOfBucket && (i < p.numOfBucket ==> back(p, cur) == i) && (forall k int :: {p.buckets[k]} 0 <= k && k < p.numOfBucket && back(p, k) < i ==> p.buckets[k] != nil && !hasmap(p.buckets[k])[pkt.hashOfPacket])
+
+// Put accepts a packet exactly when its hash is not in the pool, and then it is in the pool
+//@ smt all (declare-ghost put_ok Bool)
+//@ func (p *PacketPool) Put(pkt) (r)
+//@   arith int
+//@   requires poolInv(p) && pkt != nil && p.lenOfBucket >= 1
+//@   modifies p.cur, p.buckets[*], p.len[*], p.buckets[p.cur][*], ghost(put_ok)
+//@   opt ghost:put_ok r
+//@   ensures [accepted_is_new] r ==> (forall i int :: {old(p.buckets)[i]} 0 <= i && i < old(p.numOfBucket) && old(p.buckets[i]) != nil ==> !old(hasmap(p.buckets[i])[pkt.hashOfPacket]))
+//@   ensures [new_is_accepted] (forall i int :: {old(p.buckets)[i]} 0 <= i && i < old(p.numOfBucket) && old(p.buckets[i]) != nil ==> !old(hasmap(p.buckets[i])[pkt.hashOfPacket])) ==> r
+//@   ensures [inv] poolInv(p)
+
+// allow-lists of peer identities, abstractly: membership is a function of the set object and the id bytes
+//@ smt all (declare-fun idset_has (Int BSeq) Bool)
+//@ smt all (declare-fun idset_empty (Int) Bool)
+//@ func (s *PeerIDSet) Contains(id) (r)
+//@   trusted
+//@   pure
+//@   ensures r == idset_has(ref(s), pid_bytes(id))
+//@ func (s *Set) IsEmpty() (r)
+//@   trusted
+//@   pure
+//@   ensures r == idset_empty(ref(s))
+
+// a role claimed by a peer survives only if the matching allow-list is empty or lists the peer
+// (validator role against the validator list, seed role against the seed list); nothing is added
+//@ func (p2p *PeerToPeer) resolveRole(r, id, onlyUnSet) (res)
+//@   arith bv
+//@   pure
+//@   requires p2p != nil && p2p.allowedRoots != nil && p2p.allowedSeeds != nil && p2p.allowedRoots.Set != nil && p2p.allowedSeeds.Set != nil
+//@   ensures [root_authorized] onlyUnSet && (res & p2pRoleRoot) == p2pRoleRoot ==> (r & p2pRoleRoot) == p2pRoleRoot && (idset_empty(ref(p2p.allowedRoots.Set)) || idset_has(ref(p2p.allowedRoots), pid_bytes(id)))
+//@   ensures [seed_authorized] onlyUnSet && (res & p2pRoleSeed) == p2pRoleSeed ==> (r & p2pRoleSeed) == p2pRoleSeed && (idset_empty(ref(p2p.allowedSeeds.Set)) || idset_has(ref(p2p.allowedSeeds), pid_bytes(id)))
+//@   ensures [nothing_added] onlyUnSet ==> (res & ^r) == 0
+
+// the application callback sees a packet only if: it does not claim this node as its source; a one-hop
+// packet (ttl != 0 or destination "peer") comes from the very peer that is its source; an originator
+// broadcast (destination any, ttl 0, delivered by its source) comes from a peer holding the validator
+// role; and a relayed packet was new to the hash pool
+//@ func (p *Peer) ID() (r)
+//@   arith bv
+//@   pure
+//@   requires p != nil
+//@   ensures r == p.id
+//@ func (p *Peer) HasRole(r) (res)
+//@   arith bv
+//@   pure
+//@   requires p != nil
+//@   ensures res == ((p.role & r) == r)
+//@ func (p *Peer) ConnType() (r)
+//@   arith bv
+//@   pure
+//@   requires p != nil
+//@   ensures r == p.connType
+//@ func (p2p *PeerToPeer) ID() (r)
+//@   arith bv
+//@   pure
+//@   requires p2p != nil && p2p.self != nil
+//@   ensures r == p2p.self.id
+//@ func (p2p *PeerToPeer) onPacket(pkt, p)
+//@   arith bv
+//@   nosafety
+//@   modifies *
+//@   opt no-callee-pre
+//@   opt inline-none
+//@   opt volatile put_ok
+//@   opt protect all(Packet.ttl), all(Packet.dest), all(Packet.src), all(Packet.protocol), all(Peer.id), all(Peer.role), p2p.self, p2p.packetPool
+//@   requires p2p != nil && pkt != nil && p != nil && p2p.self != nil && pkt.src != nil && p.id != nil && p2p.self.id != nil
+//@   callpre dyn: pid_bytes(p2p.self.id) != pid_bytes(pkt.src)
+//@   callpre dyn: pkt.ttl != 0 || pkt.dest == 0xff ==> pid_bytes(p.id) == pid_bytes(pkt.src)
+//@   callpre dyn: pkt.dest == 0 && pkt.ttl == 0 && pid_bytes(p.id) == pid_bytes(pkt.src) ==> (p.role & p2pRoleRoot) == p2pRoleRoot
+//@   callpre dyn: !(pkt.ttl != 0 || pkt.dest == 0xff) ==> ghost(put_ok)
